@@ -342,7 +342,11 @@ func c08Histories(run *vl.Run, depth int) {
 						k = 600
 					}
 					for j := 0; j < k; j++ {
-						m := mg.GetNextMove(pos[o.pos], movegen.GenAll, pos[o.pos].HasCheck())
+						var m Move
+						if msg, pan := vl.Guard(func() { m = mg.GetNextMove(pos[o.pos], movegen.GenAll, pos[o.pos].HasCheck()) }); pan {
+							bad = "panic:" + panicKind(msg)
+							break
+						}
 						run.AddTransitions(1)
 						if m == MoveNone {
 							exhausted = true
